@@ -759,3 +759,31 @@ Proof.
   split; [vm_compute; reflexivity|]. split; [vm_compute; reflexivity|]. split; [vm_compute; reflexivity|].
   split; vm_compute; reflexivity.
 Qed.
+
+(* ================================================================== round 6: more of the source translated *)
+(* the rejection tests and their exception classes as the source has them *)
+Theorem C18_gen_rejections :
+  (forall x w im ce sd, length w <> length x -> wmom (V1 x) (V1 w) im ce sd = Err gen_wmom_shape_error)
+  /\ (forall rows w niter nsig, gen_sc_rejects_ndim 2 = true /\ gen_sc_rejects_ndim 1 = false
+        /\ sigma_clip (M2 rows) w niter nsig = Err gen_sc_ndim_error)
+  /\ (forall x w niter nsig,
+        sigma_clip (V1 x) (Some (V1 w)) niter nsig =
+        if gen_sc_rejects_size (Z.of_nat (length w)) (Z.of_nat (length x)) then Err gen_sc_size_error
+        else sigma_clip (V1 x) (Some (V1 w)) niter nsig)
+  /\ (forall cov i, rect cov (length cov) = true -> (i < length cov)%nat -> gen_cov_diag_bad (mget cov i i) = true ->
+        cov2cor cov = Err gen_cov_diag_error).
+Proof. exact gen_rejections. Qed.
+
+(* positions of mean / error / deviation / indices in every return statement and every unpacking *)
+Theorem C18_gen_result_orders :
+  gen_wmom_return_sdev = [SMean; SErr; SStd] /\ gen_wmom_return = [SMean; SErr]
+  /\ gen_scstats_unpack = gen_wmom_return_sdev /\ gen_scstats_return = [SMean; SErr; SStd]
+  /\ gen_sc_return_full = [SMean; SStd; SErr; SIdx]
+  /\ gen_gs_clip_unpack = firstn 3 gen_sc_return_full
+  /\ gen_gs_wmom_unpack = gen_wmom_return_sdev.
+Proof. exact gen_result_orders. Qed.
+
+(* numpy's argsort contract for the model's sort: a permutation of the input, sorted by value *)
+Theorem C18_argsort_contract : forall l,
+  Permutation.Permutation l (isort_p l) /\ Sorted.StronglySorted fle (isort_p l).
+Proof. intro l. split; [apply isort_perm|apply isort_sorted]. Qed.
